@@ -102,7 +102,7 @@ def run(prop, tier, seed, jobs):
     import run as runmod
     t0 = time.time()
     fz, ms = build_targets()
-    exe = build.build_engine()
+    exe = build.build_engine_fi()   # the fault layer gives the library-managed buffer an inaccessible page right behind its length
     shutil.rmtree(W, ignore_errors=True)
     os.makedirs(W)
     seeded = os.path.join(W, "corpus_seeded"); empty = os.path.join(W, "corpus_empty"); art = os.path.join(W, "artifacts")
@@ -243,7 +243,7 @@ def replay(prop, path):
     fz, ms = build_targets()
     if path.endswith(".json"):
         import run as runmod
-        exe = build.build_engine()
+        exe = build.build_engine_fi()   # the fault layer gives the library-managed buffer an inaccessible page right behind its length
         rec = json.load(open(path))
         rc, out = runmod.replay_once(exe, "C09", rec["case"])
         sys.stdout.write(out)
